@@ -498,6 +498,14 @@ fn c10_gen_string(rng: &mut StdRng) -> String {
     s
 }
 
+/// Runs one oracle evaluation; a panic inside the library on a valid triple is a violation of its own.
+fn c10_guard<F: FnOnce() -> Option<(&'static str, Value)> + std::panic::UnwindSafe>(what: &'static str, input: Value, f: F) -> Option<(String, Value)> {
+    match std::panic::catch_unwind(f) {
+        Ok(r) => r.map(|(w, d)| (w.to_string(), d)),
+        Err(_) => Some((format!("{what}-panicked-on-a-valid-timestamp"), input)),
+    }
+}
+
 pub fn c10(args: &Args) {
     let mut report = Report::new(
         args,
@@ -533,7 +541,7 @@ pub fn c10(args: &Args) {
                 for &n in &nodes {
                     grid_points += 1;
                     report.distinct.insert(hash_of(&(s, f, c, n)));
-                    if let Some((what, d)) = c10_roundtrip(s, f, c, n) {
+                    if let Some((what, d)) = c10_guard("roundtrip", json!({"seconds": s, "fractional": f, "counter": c, "node": n}), move || c10_roundtrip(s, f, c, n)) {
                         out.violate(format!("C10:{what}"), d);
                     }
                 }
@@ -556,7 +564,8 @@ pub fn c10(args: &Args) {
     for a in &pts {
         for b in &pts {
             pairs += 1;
-            if let Some((what, d)) = c10_order(*a, *b) {
+            let (a2, b2) = (*a, *b);
+            if let Some((what, d)) = c10_guard("comparison", json!({"a": [a2.0, a2.1, a2.2, a2.3], "b": [b2.0, b2.1, b2.2, b2.3]}), move || c10_order(a2, b2)) {
                 out.violate(format!("C10:{what}"), d);
             }
         }
@@ -577,10 +586,10 @@ pub fn c10(args: &Args) {
             b.2 = a.2;
         }
         pairs += 1;
-        if let Some((what, d)) = c10_order(a, b) {
+        if let Some((what, d)) = c10_guard("comparison", json!({"a": [a.0, a.1, a.2, a.3], "b": [b.0, b.1, b.2, b.3]}), move || c10_order(a, b)) {
             out.violate(format!("C10:{what}"), d);
         }
-        if let Some((what, d)) = c10_roundtrip(a.0, a.1, a.2, a.3) {
+        if let Some((what, d)) = c10_guard("roundtrip", json!({"seconds": a.0, "fractional": a.1, "counter": a.2, "node": a.3}), move || c10_roundtrip(a.0, a.1, a.2, a.3)) {
             out.violate(format!("C10:{what}"), d);
         }
     }
